@@ -2,13 +2,14 @@
 # usage: tools/try_seed.sh <patch.diff> <PROP> [more props...]
 # applies a seeded change to /repo, runs the quick checks, prints verdicts, and always restores /repo.
 set -u
+VHOME=$(cd "$(dirname "$0")/.." && pwd)   # the checks of the tree this script lives in (a snapshot works too)
 patch=$(readlink -f "$1"); shift
 cd /repo || exit 2
 if [ -n "$(git status --porcelain)" ]; then echo "try_seed: /repo is not clean"; exit 2; fi
 if ! git apply --check "$patch" 2>/dev/null; then echo "try_seed: patch does not apply"; exit 2; fi
 git apply "$patch"
 trap 'cd /repo && git checkout -- . && git clean -fdq' EXIT
-cd /verif
+cd "$VHOME"
 for p in "$@"; do
   out=$(VERIF_EVIDENCE_DIR=/var/tmp/seed-evidence VERIF_REPLAY_DIR=/var/tmp/seed-replays VERIF_BUDGET_S=${VERIF_BUDGET_S:-20} ./check $p quick 2>&1); rc=$?
   echo "--- $p exit=$rc"
